@@ -568,6 +568,107 @@ fn compact(work: &str, n_cases: usize) {
     compact_table(work, n_cases / 2, true, &mut r);
 }
 
+// ------------------------------------------------------------------------------------------
+// corruption BETWEEN reads of an open database
+// ------------------------------------------------------------------------------------------
+
+/// `c18 reread <workdir> <n>`: open the database with a given block-cache capacity (0 = nothing stays
+/// cached, 1 / 2 / 8 = eviction under way, 1024 = everything stays cached), read table t once (every
+/// block is loaded and verified), THEN alter one block of one of its column files in place while the
+/// database stays open, and read again twice; finally a fresh reopen.  Every read after the alteration
+/// must fail or return the original rows (a block still in the cache).
+fn reread(work: &str, n_cases: usize) {
+    let mut r = Rng::from_env();
+    for keyed in [false, true] {
+        let base = std::path::Path::new(work).join("c18r-base");
+        let _ = std::fs::remove_dir_all(&base);
+        let (want_t, want_u) = {
+            let rt = runtime();
+            let db = rt.block_on(Database::verif_new_on_disk_nobg(options(&base))).unwrap();
+            run_sql(&rt, &db, if keyed { "create table t (a int primary key, b varchar)" } else { "create table t (a int, b varchar)" });
+            for part in 0..2 {
+                let vals: Vec<String> = (0..20).map(|i| format!("({}, '{}')", part * 1000 + i * 7 + 1, ["x", "yy", "zzz", ""][i % 4])).collect();
+                run_sql(&rt, &db, &format!("insert into t values {}", vals.join(", ")));
+            }
+            run_sql(&rt, &db, "create table u (k int)");
+            run_sql(&rt, &db, "insert into u values (10), (20), (30)");
+            (run_sql(&rt, &db, "select a, b from t order by a"), run_sql(&rt, &db, "select k from u"))
+        };
+        if let Outcome::Ok(rows) = &want_t {
+            println!("{{\"reread_want\":\"{}\",\"keyed\":{}}}", render_rows(rows.clone(), false), keyed);
+        }
+        let mut files: Vec<(String, Vec<u8>)> = vec![];
+        for d in &rowset_dirs(&base) {
+            if !d.starts_with("0_") { continue; }
+            for e in std::fs::read_dir(base.join(d)).unwrap() {
+                let p = e.unwrap().path();
+                let name = p.file_name().unwrap().to_string_lossy().to_string();
+                if name.ends_with(".col") { files.push((format!("{d}/{name}"), std::fs::read(&p).unwrap())); }
+            }
+        }
+        files.sort();
+        let scratch = std::path::Path::new(work).join("c18r-case");
+        let n = if keyed { n_cases / 2 } else { n_cases - n_cases / 2 };
+        for case in 0..n {
+            // moka evicts lazily: capacities 1 / 8 mostly still serve the hit; only 0 guarantees a reload
+            let cache = [0usize, 0, 1, 0, 8, 1024][case % 6];
+            let (name, bytes) = &files[(case / 2) % files.len()];
+            let ib = std::fs::read(base.join(name.replace(".col", ".idx"))).unwrap();
+            let entries: Vec<(usize, usize)> = hk::VerifColumn::open(vec![], &ib, DataType::Int32, None, true).unwrap()
+                .index_entries().iter().map(|e| (e.offset as usize, e.length as usize)).collect();
+            let b = r.below(entries.len() as u64) as usize;
+            let (off, len) = entries[b];
+            let patch = match r.below(8) {
+                0 => format!("zero12:{b}:{}:{}", r.below((len - 16).max(1) as u64), 1 + r.below(255)),
+                1 => format!("flip:{}:{}", off + len - 1 - r.below(16) as usize, r.below(8)),
+                2 | 3 => format!("set:{}:{}", off + r.below((len - 16).max(1) as u64) as usize, r.below(256)),
+                _ => format!("flip:{}:{}", off + r.below((len - 16).max(1) as u64) as usize, r.below(8)),
+            };
+            let mut bb = bytes.clone();
+            apply_patch(&mut bb, &patch, &entries);
+            let changed = bb != *bytes;
+            let _ = std::fs::remove_dir_all(&scratch);
+            copy_dir(&base, &scratch);
+            let mut o = options(&scratch);
+            o.cache_size = cache;
+            let rt = runtime();
+            let mut res: Vec<String> = vec![];
+            match catch(|| rt.block_on(Database::verif_new_on_disk_nobg(o.clone()))) {
+                Err(_) | Ok(Err(_)) => res.push("open:err".into()),
+                Ok(Ok(db)) => {
+                    res.push("open:ok".into());
+                    // first read: every block of t is loaded from its file and verified
+                    res.push(format!("q0:{}", query(&rt, &db, "select a, b from t order by a", &want_t)));
+                    // the file is altered in place while the database stays open (same inode: the
+                    // column's open file handle sees the new bytes)
+                    {
+                        use std::io::{Seek, SeekFrom, Write};
+                        let mut fh = std::fs::OpenOptions::new().write(true).open(scratch.join(name)).unwrap();
+                        fh.seek(SeekFrom::Start(0)).unwrap();
+                        fh.write_all(&bb).unwrap();
+                        fh.sync_all().unwrap();
+                    }
+                    res.push(format!("q1:{}", query(&rt, &db, "select a, b from t order by a", &want_t)));
+                    res.push(format!("q2:{}", query(&rt, &db, "select a, b from t order by a", &want_t)));
+                    res.push(format!("u:{}", query(&rt, &db, "select k from u", &want_u)));
+                    drop(db);
+                    match catch(|| rt.block_on(Database::verif_new_on_disk_nobg(o.clone()))) {
+                        Err(_) | Ok(Err(_)) => res.push("reopen:err".into()),
+                        Ok(Ok(db2)) => {
+                            res.push("reopen:ok".into());
+                            res.push(format!("r1:{}", query(&rt, &db2, "select a, b from t order by a", &want_t)));
+                        }
+                    }
+                }
+            }
+            println!("{{\"file\":\"{}\",\"keyed\":{},\"cache\":{},\"patch\":\"{}\",\"changed\":{},\"block\":{},\"nblocks\":{},\"offset\":{},\"res\":\"{}\"}}",
+                     name, keyed, cache, patch, changed, b, entries.len(), off, res.join(" "));
+        }
+        let _ = std::fs::remove_dir_all(&scratch);
+        let _ = std::fs::remove_dir_all(&base);
+    }
+}
+
 fn main() {
     let args: Vec<String> = std::env::args().collect();
     match args[1].as_str() {
@@ -580,6 +681,7 @@ fn main() {
         }
         "disk" => disk(&args[2], args[3].parse().unwrap()),
         "compact" => compact(&args[2], args[3].parse().unwrap()),
+        "reread" => reread(&args[2], args[3].parse().unwrap()),
         "openonly" => {
             // exit code 0: open returned or panicked (caught); killed by SIGABRT otherwise
             let rt = runtime();
